@@ -19,6 +19,18 @@ def run(tier, seed):
     multi = os.path.join(wd, "multi.ndjson")
     common.run([vh, "gen-multibad", "-seed", str(seed), "-n", str(12 if quick else 200), "-out", multi])
     args = ["-seed", seed, "-bases", 3 if quick else 0, "-edits", 25 if quick else 200, "-double", 0.5, "-repeat", 6 if quick else 25]
+    # open finding FirstFoundUnresolved: honoured (messages compared up to the reference named) only while its witness still flips
+    known = common.Known().devs("C10")
+    if "FirstFoundUnresolved" in known:
+        wdoc = os.path.join(wd, "witness.ndjson")
+        with open(wdoc, "w") as f:
+            f.write(json.dumps(json.load(open(known["FirstFoundUnresolved"]["witness"]))["doc"]) + "\n")
+        wf = specfam.run_spec(check, vh, "witnessrun", ["-seed", seed, "-bases", -1, "-repeat", 24], ["C10"], [], shards=1, docs_file=wdoc)
+        if any(f["input"].get("edit") == "(given)" and f["clause"].startswith("Deterministic") for f in wf):
+            check.known("FirstFoundUnresolved", known["FirstFoundUnresolved"]["text"])
+            args += ["-normalize-first-found"]
+        else:
+            common.log("[known] witness of FirstFoundUnresolved no longer flips")
     fails = specfam.run_spec(check, vh, "repeat", args, ["C10", "C07"], [], shards=8 if quick else 14, docs_file=multi)
     specfam.report(check, fails, {})
     check.coverage["rule"] = ("documents = base documents, edited documents (50%% double edits) and generated documents with several simultaneous rule violations in different definitions and "
